@@ -28,9 +28,19 @@ use std::{
 pub enum Ev {
     N(usize),
     Zero,
-    Fail,
+    /// the call fails with the `k`-th `io::ErrorKind` of `KINDS`
+    Fail(u8),
     Pending,
 }
+/// the error kinds a scripted pipe call can fail with (`f<k>` in a script; `f` = `f0`). The last one is not used for reads: the
+/// library reports its own buffer exhaustion as `OutOfMemory`, and the harness tells the two apart by the kind.
+pub const KINDS: [io::ErrorKind; 11] = [
+    io::ErrorKind::ConnectionReset, io::ErrorKind::Interrupted, io::ErrorKind::WouldBlock, io::ErrorKind::TimedOut, io::ErrorKind::BrokenPipe,
+    io::ErrorKind::WriteZero, io::ErrorKind::UnexpectedEof, io::ErrorKind::Other, io::ErrorKind::NotConnected, io::ErrorKind::PermissionDenied,
+    io::ErrorKind::OutOfMemory,
+];
+pub const N_WRITE_KINDS: u64 = 11;
+pub const N_READ_KINDS: u64 = 10;
 pub fn script_text(s: &[Ev]) -> String {
     if s.is_empty() {
         return "-".into();
@@ -39,7 +49,8 @@ pub fn script_text(s: &[Ev]) -> String {
         .map(|e| match e {
             Ev::N(n) => format!("{}", n),
             Ev::Zero => "z".into(),
-            Ev::Fail => "f".into(),
+            Ev::Fail(0) => "f".into(),
+            Ev::Fail(k) => format!("f{}", k),
             Ev::Pending => "p".into(),
         })
         .collect::<Vec<_>>()
@@ -52,8 +63,9 @@ pub fn parse_script(s: &str) -> Vec<Ev> {
     s.split(',')
         .map(|t| match t {
             "z" => Ev::Zero,
-            "f" => Ev::Fail,
+            "f" => Ev::Fail(0),
             "p" => Ev::Pending,
+            f if f.starts_with('f') => Ev::Fail(f[1..].parse().unwrap()),
             n => Ev::N(n.parse().unwrap()),
         })
         .collect()
@@ -79,7 +91,7 @@ impl WState {
         }
         match self.script.pop_front() {
             Some(Ev::Zero) => Poll::Ready(Ok(0)),
-            Some(Ev::Fail) => Poll::Ready(Err(io::ErrorKind::ConnectionReset.into())),
+            Some(Ev::Fail(k)) => Poll::Ready(Err(KINDS[k as usize].into())),
             Some(Ev::N(n)) => {
                 let k = n.min(buf.len());
                 self.sink.extend_from_slice(&buf[..k]);
@@ -100,7 +112,7 @@ impl WState {
         }
         match self.script.pop_front() {
             Some(Ev::Pending) => Poll::Pending,
-            Some(Ev::Fail) => Poll::Ready(Err(io::ErrorKind::ConnectionReset.into())),
+            Some(Ev::Fail(k)) => Poll::Ready(Err(KINDS[k as usize].into())),
             _ => {
                 self.flushed_upto = self.sink.len();
                 Poll::Ready(Ok(()))
@@ -154,7 +166,7 @@ impl RState {
             panic!("call budget exhausted: the receiver keeps reading");
         }
         let want = match self.script.pop_front() {
-            Some(Ev::Fail) => return Poll::Ready(Err(io::ErrorKind::Interrupted.into())),
+            Some(Ev::Fail(k)) => return Poll::Ready(Err(KINDS[k as usize].into())),
             Some(Ev::Pending) => return Poll::Pending,
             Some(Ev::Zero) => 0,
             Some(Ev::N(n)) => n,
@@ -193,7 +205,7 @@ fn recv_out(r: Result<(usize, String), RecvError<io::Error>>) -> String {
             if e.kind() == io::ErrorKind::OutOfMemory {
                 "oom".into()
             } else {
-                "read".into()
+                format!("read:{:?}", e.kind())
             }
         }
     }
@@ -213,8 +225,19 @@ pub fn io_send<T: Flat + DynTarget + ?Sized>(inits: &[D], max: usize, script: &[
     let mut res = vec![];
     for d in inits {
         let one = guarded(|| {
-            let g = tx.alloc().map_err(|e| format!("allocerr:{:?}", e.kind()))?;
-            let g = g.new_in_place(de::<T>(d)).map_err(|e| format!("emplace:{}", err_str(&e)))?;
+            let mut g = tx.alloc().map_err(|e| format!("allocerr:{:?}", e.kind()))?;
+            // the uninitialised guard exposes the whole send buffer, the same through both accessors
+            let (n1, n2) = (g.as_bytes().len(), g.as_mut_bytes().len());
+            if n1 != n2 || n1 < max.max(T::MIN_SIZE) { return Err(format!("GUARD-DIFF:uninit:{}:{}", n1, n2)); }
+            let mut g = match d {
+                // the library's own default path: `UninitSendGuard::default_in_place`
+                D::Def(_) => match T::send_default(g) { Ok(r) => r, Err(_) => panic!("harness: default message of a type without a default") },
+                _ => g.new_in_place(de::<T>(d)),
+            }.map_err(|e| format!("emplace:{}", err_str(&e)))?;
+            // the message seen through `Deref` and `DerefMut` is the same value
+            let z1 = g.size();
+            let z2 = { let m: &mut T = &mut *g; m.size() };
+            if z1 != z2 { return Err(format!("GUARD-DIFF:init:{}:{}", z1, z2)); }
             g.send().map_err(|e| format!("err:{:?}", e.kind()))
         });
         res.push(send_res(one));
@@ -307,8 +330,16 @@ pub fn aio_send<T: Flat + DynTarget + ?Sized>(inits: &[D], max: usize, script: &
         let before_flushes = st.borrow().flushes;
         let one = guarded(|| {
             let fut = async {
-                let g = tx.alloc().await.map_err(|e| format!("allocerr:{:?}", e.kind()))?;
-                let g = g.new_in_place(de::<T>(d)).map_err(|e| format!("emplace:{}", err_str(&e)))?;
+                let mut g = tx.alloc().await.map_err(|e| format!("allocerr:{:?}", e.kind()))?;
+                let (n1, n2) = (g.as_bytes().len(), g.as_mut_bytes().len());
+                if n1 != n2 || n1 < max.max(T::MIN_SIZE) { return Err(format!("GUARD-DIFF:uninit:{}:{}", n1, n2)); }
+                let mut g = match d {
+                    D::Def(_) => match T::asend_default(g) { Ok(r) => r, Err(_) => panic!("harness: default message of a type without a default") },
+                    _ => g.new_in_place(de::<T>(d)),
+                }.map_err(|e| format!("emplace:{}", err_str(&e)))?;
+                let z1 = g.size();
+                let z2 = { let m: &mut T = &mut *g; m.size() };
+                if z1 != z2 { return Err(format!("GUARD-DIFF:init:{}:{}", z1, z2)); }
                 g.send().await.map_err(|e| format!("err:{:?}", e.kind()))
             };
             let mut fut = Box::pin(fut);
@@ -334,8 +365,37 @@ pub fn aio_recv<T: Flat + Walk + ?Sized>(stream: &[u8], max: usize, script: &[Ev
     let mut rx = AsyncReceiver::<T, _>::io(ScriptRead(st.clone()), max);
     let mut outs = vec![];
     let mut polls = 0usize;
+    let mut retained = false;
     for _ in 0..nrecv {
         let one = guarded(|| {
+            if !retained {
+                // once per case: `retain()` the first guard; the next `recv` must yield the same message without a read
+                retained = true;
+                let first = {
+                    let fut = async {
+                        match rx.recv().await {
+                            Ok(g) => { let f = (g.size(), walk_str(&*g, false)); g.retain(); Ok(f) }
+                            Err(e) => Err(e),
+                        }
+                    };
+                    let mut fut = Box::pin(fut);
+                    match run_woken(fut.as_mut(), &mut polls) { Some(r) => r, None => return "STUCK".to_string() }
+                };
+                return match first {
+                    Err(e) => recv_out(Err(e)),
+                    Ok(first) => {
+                        let mid = st.borrow().calls;
+                        let fut = async { rx.recv().await.map(|g| (g.size(), walk_str(&*g, false))) };
+                        let mut fut = Box::pin(fut);
+                        let again = match run_woken(fut.as_mut(), &mut polls) { Some(r) => r, None => return "STUCK".to_string() };
+                        let after = st.borrow().calls;
+                        match again {
+                            Ok(x) if x == first && after == mid => recv_out(Ok(x)),
+                            other => format!("RETAIN-DIFF:{}:{}:{}", mid, after, recv_out(other)),
+                        }
+                    }
+                };
+            }
             let fut = async { recv_out(rx.recv().await.map(|g| (g.size(), walk_str(&*g, false)))) };
             let mut fut = Box::pin(fut);
             run_woken(fut.as_mut(), &mut polls).unwrap_or_else(|| "STUCK".into())
